@@ -498,8 +498,8 @@ func genSWScenario(r *rand.Rand) *SWScenario {
 	return sc
 }
 
-// genSWGrowth: many keys, the swarm grows between cycles (regions split), more keys are started in
-// the new regions, several cycles follow; no outage, no restart.
+// genSWGrowth: many keys, the swarm grows (regions split) or shrinks (regions merge) threefold between cycles,
+// more keys are started afterwards, several cycles follow; no outage, no restart.
 func genSWGrowth(r *rand.Rand) *SWScenario {
 	sc := &SWScenario{Seed: r.Int63(), R: 2 + r.Intn(3), NPeers: 40 + r.Intn(50), NKeys: 16 + r.Intn(16), Interval: 60, Workers: 3 + r.Intn(3)}
 	sc.K = sc.R
@@ -524,6 +524,14 @@ func genSWGrowth(r *rand.Rand) *SWScenario {
 		{Kind: "join", Peers: rest[:len(rest)/2]}, {Kind: "advance", Mins: 70}, {Kind: "settle"},
 		{Kind: "join", Peers: rest[len(rest)/2:]}, {Kind: "advance", Mins: 70}, {Kind: "settle"},
 		{Kind: "start", Keys: second}, {Kind: "advance", Mins: 15}, {Kind: "settle"}}
+	if r.Intn(2) == 0 {
+		// the mirror image: the swarm shrinks to a third between cycles (regions merge)
+		sc.Initial = nil
+		for i := 1; i <= sc.NPeers; i++ {
+			sc.Initial = append(sc.Initial, i)
+		}
+		sc.Ops[5].Kind, sc.Ops[8].Kind = "leave", "leave"
+	}
 	for i := 0; i < 5; i++ {
 		sc.Ops = append(sc.Ops, SWOp{Kind: "advance", Mins: 65}, SWOp{Kind: "settle"})
 	}
